@@ -267,13 +267,13 @@ func TestC19aReceiver(t *testing.T) {
 		c.Class("scenario=" + sc.name)
 		c.ClassIf(sigValid && site.Top() != "signature", "mutant-keeps-valid-signature")
 		c.ClassIf(sigValid && site.Top() != "signature", "outside-signature:"+e.kind+"."+site.Top())
-		if isVoteField && ev.Open(kfVoteFields) {
+		if isVoteField && openFinding(kfVoteFields) {
 			rec.Exclude(kfVoteFields)
 			c.Class("excluded:" + kfVoteFields)
 			c.Done(false)
 			return
 		}
-		if isTimestamp && ev.Open(kfTimestamp) {
+		if isTimestamp && openFinding(kfTimestamp) {
 			rec.Exclude(kfTimestamp)
 			c.Class("excluded:" + kfTimestamp)
 			c.Done(false)
